@@ -662,7 +662,7 @@ theorem exec_pres {nt : Nat} (s : St) (op : Op) (hm : MInv nt s) (hop : op.inner
         · exact this
         · exact this
       | posted l d1 d2 => exact pres_afterPosted P hP s t l src dst amt (recvOf s.env dst dk) data d1 d2 h (fp l d1 d2 hp) (ep l d1 d2 hp)
-  | vote acc pub caller =>
+  | vote acc pub caller cb =>
     simp only [exec]
     split
     · exact h
@@ -672,18 +672,24 @@ theorem exec_pres {nt : Nat} (s : St) (op : Op) (hm : MInv nt s) (hop : op.inner
       | mk l r =>
         obtain ⟨b, g⟩ := r
         rw [hvp] at fv ev
+        have noCb : ∀ s' : St, P s'.cur ∧ P s'.snap →
+            P (if cb = true then { s' with skip := 1 } else s').cur ∧ P (if cb = true then { s' with skip := 1 } else s').snap := by
+          intro s' h'; split <;> exact h'
         cases b with
-        | false => exact pres_done P hP s l .f h fv ev
+        | false => exact noCb _ (pres_done P hP s l .f h fv ev)
         | true =>
           simp only []
           cases g with
-          | none => exact pres_done P hP s l .t h fv ev
+          | none => exact noCb _ (pres_done P hP s l .t h fv ev)
           | some g =>
             simp only []
             cases hmg : mintGasCb s.env l acc g with
             | none => exact ⟨h.2, h.2⟩
             | some l' =>
-              exact pres_done P hP s l' .t h (fv.trans (mintGasCb_frame _ _ _ _ _ hmg)) (ev.trans (mintGasCb_ef _ _ _ _ _ hmg))
+              simp only []
+              split
+              · exact ⟨hP _ _ h.1 (fv.trans (mintGasCb_frame _ _ _ _ _ hmg)) (ev.trans (mintGasCb_ef _ _ _ _ _ hmg)), h.2⟩
+              · exact noCb _ (pres_done P hP s l' .t h (fv.trans (mintGasCb_frame _ _ _ _ _ hmg)) (ev.trans (mintGasCb_ef _ _ _ _ _ hmg)))
   | register pub caller =>
     simp only [exec]
     split
